@@ -66,7 +66,10 @@ CLAIMS = {'C03': {'text': 'Hazards of the geometry/container layer are enumerate
                  '(storewidth: the bytes of the chunk / array / pixel are read from the code, '
                  'offsets and widths from the pointer arithmetic and the intrinsic). Every '
                  'iter_rows_with_step implementation yields ceil((height - start)/step) rows (up '
-                 "to max_rows), so no destination row is skipped. Does NOT decide that a kernel's "
+                 'to max_rows), so no destination row is skipped. No size of an intermediate image '
+                 'is the result of a division by an unguarded caller value that may be zero (an '
+                 'empty intermediate image makes both steps leave at their zero-size guards). '
+                 "Does NOT decide that a kernel's "
                  'inner column loops visit every column.',
          'note': 'Leaf write event = ImageViewMut::{iter_rows_mut,iter_N_rows_mut,split_by_*_mut}; '
                  'what a kernel does with the rows is not analysed. Zero-size guards are '
